@@ -645,6 +645,24 @@ func (fr *Frame) applyContract(fc *FuncContract, key string, ci ssa.CallInstruct
 		t := fr.safeTr(env, rq)
 		enc.oblige("call:requires", where, short+" requires "+rq.Text, rq.Tags, pc, t)
 	}
+	// termination of recursion: callee's measure strictly below the measure of the function under verification
+	if fc.Decreases != nil {
+		root := fr
+		for root.parent != nil {
+			root = root.parent
+		}
+		if root.fc != nil && root.fc.Decreases != nil && root.old != nil {
+			env.where = fc.Decreases.Where()
+			callee := fr.safeTrInt(env, fc.Decreases)
+			env0 := &Env{w: w, vars: map[string]TV{}, state: root.old, old: root.old, scope: root.fc.Scope, where: root.fc.Decreases.Where()}
+			for n, tv := range root.paramTV {
+				env0.vars[n] = tv
+			}
+			caller := fr.safeTrInt(env0, root.fc.Decreases)
+			enc.oblige("call:decreases", where, fmt.Sprintf("%s: measure %s is non-negative and smaller than the caller's (%s)", short, fc.Decreases.Text, root.fc.Decreases.Text),
+				[]string{"C14"}, pc, And(Le(IntLit(0), callee), Lt(callee, caller)))
+		}
+	}
 	fr.bridgeFormat(ci)
 	pre := st.clone()
 	// frame
@@ -1362,4 +1380,16 @@ func moduleOfType(st types.Type) string {
 		return p[:i]
 	}
 	return p
+}
+
+func (fr *Frame) safeTrInt(env *Env, c *Clause) (t *Term) {
+	defer func() {
+		if r := recover(); r != nil {
+			if se, ok := r.(specErr); ok {
+				panic(unsupportedErr{"contract error: " + se.msg})
+			}
+			panic(r)
+		}
+	}()
+	return env.tr(c.Expr).T
 }
